@@ -135,6 +135,10 @@ def eval_lookup(lk: ir.Lookup, env):
 # ---------------------------------------------------------------------------------------------------------------
 # calibrators (exact)
 # ---------------------------------------------------------------------------------------------------------------
+HUGE = Fraction(10) ** 300
+TINY = Fraction(1, 10 ** 300)
+
+
 class CalibrationExpected(ModelError):
     """out of range without extrapolation: a CalibrationError is expected"""
 
@@ -149,7 +153,11 @@ def calibrate(cal, x):
         for c, e in cal.terms:
             if e < 0 and q == 0:
                 raise ModelError("zero-to-negative-power", "")
-            t = Fraction(c) * (q ** e)
+            power = q ** e
+            t = Fraction(c) * power
+            if abs(power) > HUGE or abs(t) > HUGE or (power != 0 and abs(power) < TINY):
+                # beyond (or below) what a double can hold: float arithmetic overflows/underflows, nothing is pinned down
+                raise DontCare()
             total += t
             scale += abs(t)
         return total, scale
